@@ -464,6 +464,12 @@ VALID_SCOPED += ["enum E { A = 07, B = A + 010 }", "enum E { A = 0, B = 00 }"]
 ILLEGAL += ["struct S { int i; int f(); };", "struct S { int i; int f(void); };", "struct S { int f(int a); };", "@c struct S { int i; double g(void); };",
             "@c struct S { int i; int f(); };"]
 VALID_SCOPED += ["@c struct S { int i; double d; };", "struct S { int i; double d; };"]
+# names of an inner scope (a template parameter, a member of a class, a typedef inside a namespace) declared by EARLIER declarations of
+# the same library: used bare in a later declaration they are undeclared, however many declarations came before
+ILLEGAL += ["@after template<typename U> void second(T arg, U other)", "@after void g(T arg)", "@after T g()", "@after void g(Part p)", "@after void g(Mode m)",
+            "@after void g(Cell<T> *c)", "@after template<typename U> void h(Item i, U u)"]
+VALID_SCOPED += ["@after template<typename U> void second(U arg, U other)", "@after void g(deep::Part p)", "@after void g(Holder::Mode m)", "@after void g(Holder *h)",
+                 "@after template<typename T> void again(T arg)"]
 ILLEGAL = list(dict.fromkeys(ILLEGAL))
 
 
@@ -480,6 +486,13 @@ def attr_case(decl):
     if decl.startswith("@class "):
         # the declaration is a data member of a class
         decls = [dict(decl="class Cm", declarations=[dict(decl="Cm()"), dict(decl=decl[len("@class "):])])]
+    if decl.startswith("@after "):
+        decls = [dict(decl="template<typename T> void first(T arg)", cxx_template=[dict(instantiation="<int>")]),
+                 dict(decl="template<typename T, typename Item> void pair(T a, Item b)", cxx_template=[dict(instantiation="<int, double>")]),
+                 dict(decl="template<typename T> class Cell", cxx_template=[dict(instantiation="<int>")], declarations=[dict(decl="Cell()"), dict(decl="T get()")]),
+                 dict(decl="class Holder", declarations=[dict(decl="Holder()"), dict(decl="enum Mode { M_A, M_B }"), dict(decl="typedef int Slot")]),
+                 dict(decl="namespace deep", declarations=[dict(decl="typedef long Part"), dict(decl="void inside(Part p)")]),
+                 dict(decl=decl[len("@after "):], **(dict(cxx_template=[dict(instantiation="<double>")]) if decl[len("@after "):].startswith("template") else {}))]
     extra = {}
     if decl.startswith("@c "):
         decls = [dict(decl=decl[3:])]
